@@ -229,6 +229,8 @@ type Record struct {
 	Index        uint64          `json:"index"`
 	RunSeed      uint64          `json:"run_seed"`
 	Kind         string          `json:"kind"`
+	Shape        string          `json:"shape"`
+	Discarded    int             `json:"discarded"`
 	Mode         string          `json:"mode"`
 	NTasks       int             `json:"ntasks"`
 	NOps         int             `json:"nops"`
